@@ -175,6 +175,10 @@ def before_prefix(lines, k):
 
 
 def check_world(w):
+    for m in w.members:
+        eng.normalize(m.scn)
+    for f in w.families:
+        eng.normalize(f.scn)
     obs = W.run_world(w)
     models = expected(w)
     dsts = {d: (s, mech, k) for (s, d, mech, k) in w.clones}
